@@ -239,24 +239,33 @@ def arms_rule(repo, res, rule="ARMS"):
         res.undecided(rule, f"{rule}:main::aot", "function not found")
         return
     found = 0
-    for n in A.walk(fn.body):
-        if n["k"] == "Match":
+    helper = None
+    # the shell -> array base table: in aot itself or in a helper of main.rs that aot calls
+    for holder in [fn] + [h for h in repo.fns_in("main") if h is not fn]:
+        for n in A.walk(holder.body):
+            if n["k"] != "Match":
+                continue
             arms = []
             for a in n["arms"]:
                 vs = A.pat_variants(a["pat"])
                 b = a["body"]
+                while b["k"] == "Block" and len(b["stmts"]) == 1 and b["stmts"][0]["k"] == "ExprStmt":
+                    b = b["stmts"][0]["expr"]
                 if len(vs) == 1 and vs[0][0].startswith("Shell::") and b["k"] == "Path" and b["path"].endswith("::ARRAY_START"):
                     arms.append((vs[0][0].split("::")[-1], b["path"].split("::")[-2]))
             if len(arms) >= 4:
                 found += 1
+                helper = holder if holder is not fn else None
                 for v, m in arms:
-                    res.check(v.lower() == m.lower(), rule, f"{rule}:main::aot:{v}", f"Shell::{v} => {m}::ARRAY_START" + ("" if v.lower() == m.lower() else ": the dump would be numbered with another shell's array base"), f"{fn.file}:{n['l']}")
-                # and that value is what to_dot receives
-                envs = A.collect_envs(fn)
-                for c in P.find_calls(fn.body, methods={"to_dot"}):
-                    if len(c["args"]) == 2 and c["recv"]["k"] == "Path" and c["recv"]["path"] == "dfa":
-                        p = A.show(A.resolve(c["args"][1], envs.get(id(c))))
-                        res.check("ARRAY_START" in p or "match" in p.lower(), rule, f"{rule}:main::aot:to_dot-arg", f"dfa.to_dot(.., {p[:80]})", f"{fn.file}:{c['l']}")
+                    res.check(v.lower() == m.lower(), rule, f"{rule}:main::aot:{v}", f"Shell::{v} => {m}::ARRAY_START" + ("" if v.lower() == m.lower() else ": the dump would be numbered with another shell's array base"), f"{holder.file}:{n['l']}")
+    if found:
+        # and that value is what to_dot receives
+        envs = A.collect_envs(fn)
+        for c in P.find_calls(fn.body, methods={"to_dot"}):
+            if len(c["args"]) == 2 and c["recv"]["k"] == "Path" and c["recv"]["path"] == "dfa":
+                p = A.show(A.resolve(c["args"][1], envs.get(id(c))))
+                ok = "ARRAY_START" in p or "match" in p.lower() or (helper is not None and helper.name + "(" in p)
+                res.check(ok, rule, f"{rule}:main::aot:to_dot-arg", f"dfa.to_dot(.., {p[:80]})", f"{fn.file}:{c['l']}")
     if not found:
         res.undecided(rule, f"{rule}:main::aot", "no `match shell { Shell::X => x::ARRAY_START, .. }` found")
 
